@@ -196,10 +196,19 @@ def run(chk: core.Check) -> int:
     add('GEOPHIRES', 'absent-output', GEO_MIX[:2], ['Average Net Electricity Production', 'Direct-Use heat breakeven price (LCOH)', 'Total capital costs'], gbase, 6, 2)
     hbase = geo.params_to_text(geo.base_params(1, 2, 9, L=10, n=2))
     add('GEOPHIRES', 'heat', [('Gradient 1', 'uniform', 40, 70), ('Utilization Factor', 'uniform', 0.7, 0.95)], ['Average Direct-Use Heat Production', 'Total capital costs'], hbase, 8 if quick else 40, 2)
+    # a history: two Monte-Carlo runs in one process, the base file rewritten in place between them — the second run's rows must replay on the NEW base
+    hin = [('Reservoir Temperature', 'uniform', 130, 170), ('Reservoir Thickness', 'uniform', 0.122, 0.299)]
+    add('HIP_RA_X', 'rewrite-history', hin, mc.HIP_OUTPUTS[:2], mc.HIP_BASE, 6, 3)
+    base2 = mc.HIP_BASE.replace('Reservoir Area, 55.0', 'Reservoir Area, 91.0').replace('Reservoir Porosity, 10.0', 'Reservoir Porosity, 16.0')
+    jobs[-1]['second'] = {'base': base2, 'settings': mc.settings_text(hin, mc.HIP_OUTPUTS[:2], 7)}
     res = mc.run_many(jobs, chk.scratch, parallel=2)
     for j, r in zip(jobs, res):
         chk.tag('run/' + j['mix'])
         check_run(chk, r, (j['program'], j['mix']), 40 if quick else 300)
+        if j.get('second') and r.get('second'):
+            chk.tag('run/second-in-same-process')
+            j2 = {**j, 'base': j['second']['base'], 'settings': j['second']['settings'], 'iterations': 7}
+            check_run(chk, {**r['second'], 'job': j2}, (j['program'], j['mix'], 'second'), 40)
     # contention
     jobs = []
     for k in range(4 if quick else 16):
